@@ -76,7 +76,11 @@ def run(patch: str, checks):
 
 def batch(ids):
     "for every delivered patch of the given property ids: verify it, then run the property's own check against it"
-    outp = Path("/tmp/seed_results.jsonl")
+    outp = Path(os.environ.get("SEED_RESULTS", "/tmp/seed_results.jsonl"))
+    extra = {}  # SEED_EXTRA="C05:2=C16,C02:2=C11": further checks to run against one change
+    for item in filter(None, os.environ.get("SEED_EXTRA", "").split(",")):
+        key, chk = item.split("=")
+        extra.setdefault(tuple(key.split(":")), []).append(chk)
     for pid in ids:
         d = Path(os.environ.get("SEED_OUT", "/tmp/seed_out")) / pid
         for k in ("1", "2"):
@@ -87,7 +91,7 @@ def batch(ids):
                 v = verify(str(d), k)
                 rec["verify"] = v
                 if v.get("ok"):
-                    rec["checks"] = run(str(d / f"patch{k}.diff"), [pid])
+                    rec["checks"] = run(str(d / f"patch{k}.diff"), [pid] + extra.get((pid, k), []))
             except Exception as e:
                 rec["error"] = repr(e)
             with outp.open("a") as fh:
